@@ -133,6 +133,12 @@ def run(ctx: core.Ctx):
             rng.shuffle(ids)
         data = np.array([[[float(rng.choice([0, 0, rng.randint(1, 300)])) for _ in range(1)] for _ in range(2)] for _ in range(n)], dtype="float32")
         data[rng.randrange(n), 0, 0] = -9999.0
+        # the cube's storage type is not part of the partition either: float32, int16, and an unsigned type whose values exceed the int16 range
+        cdt = ["float32", "int16", "uint16"][k % 3]
+        if cdt == "uint16":
+            data = np.where(data < 0, 0, data * 200).astype("uint16")
+        else:
+            data = data.astype(cdt)
         da = xr.DataArray(data, dims=("time", "y", "x"), coords={"time": times}, attrs={"nodata": -9999.0})
         b = times[rng.randrange(0, n // 3 + 1)] if (rng.random() < 0.5 or k < 6) else None
         e = times[rng.randrange(2 * n // 3, n)] if (rng.random() < 0.5 or k < 6) else None
@@ -183,6 +189,10 @@ def run(ctx: core.Ctx):
                 break
             for yy in range(2):
                 sub = data[pos, yy, 0]
+                if cdt == "uint16":
+                    # the grouped gufunc has int16 and float32 loops only: NumPy serves a uint16 cube by the float32 loop (an exact cast),
+                    # whose logarithms are single precision; the reference is the ungrouped index of the same float32 values
+                    sub = sub.astype("float32")
                 want[pos, yy, 0] = spi.real_spi(sub, -9999.0, inside[0], inside[-1] + 1)
         if not ok_windows:
             if not isinstance(base, str):
@@ -194,7 +204,7 @@ def run(ctx: core.Ctx):
         if not np.array_equal(base.astype(np.int64), want):
             ctx.fail("spi(groups)", inp, base[:, 0, 0].tolist(), want[:, 0, 0].tolist(), note="grouped SPI = ungrouped SPI of each group's sub-series under the same window")
         if ng == 1:
-            ung = np.asarray(da.hdc.algo.spi(**kw).transpose("time", ...))
+            ung = np.asarray((da.astype("float32") if cdt == "uint16" else da).hdc.algo.spi(**kw).transpose("time", ...))
             if not np.array_equal(ung, base):
                 ctx.fail("spi(groups)", inp, "differs", "single group equals the ungrouped result")
     for (inp, base), a in zip(grefs, ctx.driver.ask(glines)):
